@@ -431,11 +431,12 @@ impl Network {
                     .get(vt)
                     .unwrap()
                     .maximal_formation_count()
-                    .unwrap_or(1)
+                    .unwrap_or(100) // types without limit: the flow network couples at most 100 vehicles
             })
             .max()
             .unwrap_or(1);
-        let overflow_capacity = number_of_service_nodes as VehicleCount * max_formation_count;
+        let overflow_capacity =
+            (number_of_service_nodes as VehicleCount).saturating_mul(max_formation_count);
         let overflow_depot_id = DepotIdx::from(depots.len() as Idx);
         let overflow_depot = Depot::new(
             overflow_depot_id,
